@@ -871,3 +871,9 @@ pub assume_specification<T, E>[ core::result::Result::<T, E>::unwrap_or ](s: cor
 /// a scratch World for effectful calls that appear inside a function whose contract declares it effect-free (rule R7-scratch)
 #[verifier::external_body]
 pub fn vx_scratch_world() -> World { unimplemented!() }
+pub assume_specification[ Duration::from_secs ](n: u64) -> (r: Duration)
+    ensures dur_nanos(r) == n as nat * 1_000_000_000;
+pub assume_specification[ Duration::from_millis ](n: u64) -> (r: Duration)
+    ensures dur_nanos(r) == n as nat * 1_000_000;
+pub assume_specification[ Duration::from_micros ](n: u64) -> (r: Duration)
+    ensures dur_nanos(r) == n as nat * 1_000;
